@@ -1853,11 +1853,14 @@ class ForAll(QuantifiedConditional):
 
     @cached_property
     def condition_unique_variable_ids(self) -> List[int]:
+        # Only the variables of the query identify a candidate solution. The nodes of predicate and symbolic function
+        # calls are results, they have to be computed again for every value of the universal variable.
         return [
             v.id_
             for v in self.condition._unique_variables_.difference(
                 self.left._unique_variables_
             )
+            if not v.value._predicate_type_
         ]
 
     def _evaluate__(
